@@ -41,7 +41,9 @@ Definition x_coin_of_name := coin_of_name.
 Definition x_csv_stems := Published.csv_stems.
 Definition x_unspent_stem := Published.unspent_stem.
 Definition x_balances_stem := Published.balances_stem.
+Definition x_final_name := final_name.
+Definition x_tmp_name := tmp_name.
 Extraction "model.ml" x_run_case x_last_height x_eval_script x_csv_writes x_csv_totals x_utxo_final x_unspent_row x_unspent_totals
   x_balances_final x_balance_row x_opreturn_lines x_stats_run x_mean x_base_reward x_open_trace x_out_run x_unspent_writes
   x_balances_writes x_unspent_header x_balances_header x_merkle_root x_decode_record x_admitted x_parse_blk_index x_read_block
-  x_block_hash x_txid x_raw_tx x_reader_run x_reader_fresh x_reader_ref_run x_reader_plain x_heights x_coin_of_name x_csv_stems x_unspent_stem x_balances_stem.
+  x_block_hash x_txid x_raw_tx x_reader_run x_reader_fresh x_reader_ref_run x_reader_plain x_heights x_coin_of_name x_csv_stems x_unspent_stem x_balances_stem x_final_name x_tmp_name.
